@@ -40,27 +40,70 @@ PUBLIC = {'/healthcheck', '/api/v1alpha/version', '/api/v1alpha/cloud', '/swagge
 NEUTRAL = {'add_metadata_to_request', 'web_security_headers', 'web_security_headers_swagger', 'catch_ui_error_in_dev', 'deprecated', 'wraps', 'api_security_headers'}
 LEVELS = {'auth.authenticated_users_only': 'user', 'auth.authenticated_developers_only': 'developer', 'billing_project_users_only': 'member',
           'authenticated_developers_or_auth_only': 'dev-or-auth'}
+# routes served by imported handlers that are not part of the batch API (one line of reason each)
+EXTERNAL_HANDLERS = {('GET', '/metrics', 'server_stats')}  # prometheus_async process metrics: no batch data, not an API endpoint of the statement
 ADMIN_PREFIXES = ('/billing_projects/', '/api/v1alpha/billing_projects/', '/billing_limits/', '/api/v1alpha/billing_limits/')
 
 
 def routes_of(m: pf.Module) -> List[Tuple[pf.FuncDef, List[Tuple[str, str]], List[str]]]:
+    """One entry per (handler, set of decorators that wrap the function OBJECT that was registered).  Decorators apply bottom-up: a
+    `@routes.X(path)` line registers the function as decorated by the lines BELOW it only; a wrapper written above the registration
+    line does not protect that route (RouteTableDef registers the object it receives)."""
     out = []
     for fn in m.tree.body:
         if not isinstance(fn, (ast.FunctionDef, ast.AsyncFunctionDef)):
             continue
-        regs = []
-        others = []
+        names = []
         for d in fn.decorator_list:
-            name = pf.dotted(d.func) if isinstance(d, ast.Call) else pf.dotted(d)
+            names.append((pf.dotted(d.func) if isinstance(d, ast.Call) else pf.dotted(d), d))
+        groups: Dict[Tuple[str, ...], List[Tuple[str, str]]] = {}
+        for i, (name, d) in enumerate(names):
             if name is not None and name.startswith('routes.') and isinstance(d, ast.Call):
-                path = pf.const_str(d.args[0]) if d.args else None
-                if path is None:
-                    raise AnalysisError(f'{FE}:{fn.lineno}: route path is not a literal')
-                regs.append((name.split('.')[1].upper(), path))
-            else:
-                others.append(name or pf.nsrc(d))
-        if regs:
-            out.append((fn, regs, others))
+                verb = name.split('.')[1]
+                if verb == 'route':
+                    ctx_args = [pf.const_str(a) for a in d.args[:2]]
+                    if len(ctx_args) < 2 or None in ctx_args:
+                        raise AnalysisError(f'{FE}:{fn.lineno}: routes.route(...) without literal method and path')
+                    method, path = ctx_args[0].upper(), ctx_args[1]  # type: ignore[union-attr]
+                else:
+                    path = pf.const_str(d.args[0]) if d.args else None
+                    if path is None:
+                        raise AnalysisError(f'{FE}:{fn.lineno}: route path is not a literal')
+                    method = verb.upper()
+                below = tuple(n or pf.nsrc(dd) for n, dd in names[i + 1:] if not (n is not None and n.startswith('routes.')))
+                groups.setdefault(below, []).append((method, path))
+        for below, regs in groups.items():
+            out.append((fn, regs, list(below)))
+    # registrations outside the decorator idiom: app.router.add_<verb>(path, handler) / web.<verb>(path, handler)
+    top = {f.name: f for f in m.tree.body if isinstance(f, (ast.FunctionDef, ast.AsyncFunctionDef))}
+    for c in ast.walk(m.tree):
+        if not isinstance(c, ast.Call) or not isinstance(c.func, ast.Attribute):
+            continue
+        verb = None
+        if c.func.attr.startswith('add_') and c.func.attr[4:] in ('get', 'post', 'put', 'patch', 'delete', 'head', 'route', 'view') and pf.nsrc(c.func.value).endswith('router'):
+            verb = c.func.attr[4:]
+        elif pf.nsrc(c.func.value) == 'web' and c.func.attr in ('get', 'post', 'put', 'patch', 'delete', 'head', 'route', 'view') and len(c.args) >= 2:
+            verb = c.func.attr
+        if verb is None:
+            continue
+        args = list(c.args)
+        method = verb.upper()
+        if verb == 'route':
+            mth = pf.const_str(args[0]) if args else None
+            if mth is None:
+                raise AnalysisError(f'{FE}:{c.lineno}: add_route without a literal method')
+            method, args = mth.upper(), args[1:]
+        path = pf.const_str(args[0]) if args else None
+        h = args[1] if len(args) > 1 else None
+        if path is None or not isinstance(h, ast.Name):
+            raise AnalysisError(f'{FE}:{c.lineno}: `{pf.nsrc(c)}` registers a route whose path/handler is not a literal / a plain name')
+        if h.id not in top:
+            if path in PUBLIC or (method, path, h.id) in EXTERNAL_HANDLERS:
+                continue
+            raise AnalysisError(f'{FE}:{c.lineno}: route {method} {path} is served by `{h.id}`, which is not defined in this module')
+        f2 = top[h.id]
+        decos = [(pf.dotted(d.func) if isinstance(d, ast.Call) else pf.dotted(d)) or pf.nsrc(d) for d in f2.decorator_list]
+        out.append((f2, [(method, path)], [d for d in decos if not d.startswith('routes.')]))
     return out
 
 
